@@ -96,3 +96,11 @@ Theorem c16_poll_local_refines_consume : forall cs next st rc latest nw,
   ls_next l = p_next _ _ s' /\ ls_received l = Z.of_nat rc' /\ ls_illegal l = ill.
 Proof. exact consume_is_lrun. Qed.
 Print Assumptions c16_poll_local_refines_consume.
+
+(* NewCertificates counts a subset of ReceivedCertificates and the cursor never moves back, for ANY response and ANY local
+   progress (also after an illegal verdict). *)
+Theorem c16_poll_counters : forall its s,
+  ls_next s <= ls_next (PollLocal.lrun s its) /\
+  0 <= ls_new (PollLocal.lrun s its) - ls_new s <= ls_received (PollLocal.lrun s its) - ls_received s.
+Proof. exact new_counts_subset_of_received. Qed.
+Print Assumptions c16_poll_counters.
